@@ -219,13 +219,17 @@ fn run_m<M: RawMutex + 'static, A: RingBuf<Item = Tagged> + 'static>(cfg: &Cfg, 
     let ids = payload::ids();
     if let Err(msg) = lib_call(|| drop(chan_owner)) {
         run.violate("C01", "panic", format!("dropping the channel panicked: {}", msg));
-        return;
+        if run.failed() {
+            return;
+        }
     }
     for id in 0..ids as u16 {
         let d = payload::drops(id);
         if d != 1 {
             run.violate("C08", "drop-count", format!("value v{} was dropped {} times after the channel, all futures and all received values are gone (expected exactly once)", id, d));
-            return;
+            if run.failed() {
+                return;
+            }
         }
     }
 }
@@ -281,7 +285,9 @@ fn check_drops2<M: RawMutex + 'static, A: RingBuf<Item = Tagged> + 'static>(c: &
         let now = payload::drops(*id);
         if now > 1 {
             run.violate("C08", "dropped-twice", format!("value v{} has been dropped {} times", id, now));
-            return;
+            if run.failed() {
+                return;
+            }
         }
         if now > *was {
             if harness_dropped.contains(id) {
@@ -300,7 +306,9 @@ fn check_drops2<M: RawMutex + 'static, A: RingBuf<Item = Tagged> + 'static>(c: &
                     "silently-dropped",
                     format!("value v{} was dropped by the channel during an operation that may not discard it (received={}, returned={}, accepted={})", id, rec.received, rec.returned, rec.ok),
                 );
-                return;
+                if run.failed() {
+                    return;
+                }
             }
         }
     }
@@ -965,7 +973,9 @@ fn finish_step<M: RawMutex + 'static, A: RingBuf<Item = Tagged> + 'static>(c: &m
     let bad = if growth_ok { false } else { a != 0 || (d != 0 && !may_free) || d > 2 };
     if bad {
         run.violate("C18", "allocation", format!("op {:?} performed {} allocations and {} deallocations (last owner released: {}, growing buffer push possible: {})", op, a, d, may_free, growth_ok));
-        return;
+        if run.failed() {
+            return;
+        }
     }
     if !avail_before && recv_pending_before >= 1 && c.available() {
         run.class(CL_AVAILABLE_WHILE_RECV_PENDING);
@@ -994,7 +1004,9 @@ fn monitors<M: RawMutex + 'static, A: RingBuf<Item = Tagged> + 'static>(c: &mut 
                 if c.stream.pending() { " and the stream" } else { "" }
             ),
         );
-        return;
+        if run.failed() {
+            return;
+        }
     }
     // C10 (B): a pending sender whose value has been received is woken
     for s in 0..c.k {
@@ -1002,7 +1014,9 @@ fn monitors<M: RawMutex + 'static, A: RingBuf<Item = Tagged> + 'static>(c: &mut 
             let id = c.send[s].num as u16;
             if c.m.get(id).is_some_and(|v| v.received) {
                 run.violate("C10", "sender-not-woken", format!("the value v{} of the pending send future in slot {} has been received but the sender has not been woken", id, s));
-                return;
+                if run.failed() {
+                    return;
+                }
             }
         }
     }
@@ -1022,7 +1036,9 @@ fn monitors<M: RawMutex + 'static, A: RingBuf<Item = Tagged> + 'static>(c: &mut 
         }
         if let Some(b) = bad {
             run.violate2("C10", "C11", "not-woken-after-close", format!("{} is pending on a closed channel and has not been woken through its latest waker", b));
-            return;
+            if run.failed() {
+                return;
+            }
         }
     }
     // C17
@@ -1034,7 +1050,9 @@ fn monitors<M: RawMutex + 'static, A: RingBuf<Item = Tagged> + 'static>(c: &mut 
             }
             if t != (c.send[s].done || c.send[s].cancelled) {
                 run.violate("C17", "is_terminated-mismatch", format!("send slot {}: is_terminated() == {} but completed/cancelled == {}", s, t, c.send[s].done || c.send[s].cancelled));
-                return;
+                if run.failed() {
+                    return;
+                }
             }
         }
         if let Some(f) = c.recv[s].fut.as_ref() {
@@ -1044,7 +1062,9 @@ fn monitors<M: RawMutex + 'static, A: RingBuf<Item = Tagged> + 'static>(c: &mut 
             }
             if t != c.recv[s].done {
                 run.violate("C17", "is_terminated-mismatch", format!("recv slot {}: is_terminated() == {} but completed == {}", s, t, c.recv[s].done));
-                return;
+                if run.failed() {
+                    return;
+                }
             }
         }
     }
@@ -1052,7 +1072,9 @@ fn monitors<M: RawMutex + 'static, A: RingBuf<Item = Tagged> + 'static>(c: &mut 
         let t = st.terminated();
         if t != c.stream.done {
             run.violate("C17", "stream-is_terminated-mismatch", format!("stream: is_terminated() == {} but it has {} returned None", t, if c.stream.done { "already" } else { "not yet" }));
-            return;
+            if run.failed() {
+                return;
+            }
         }
     }
     // C01
